@@ -70,23 +70,25 @@ theorem foldl_raised (ops : Ops DT Val) (cfg : Cfg Val) (ps : List (ParamDesc DT
   | nil => exact h
   | cons pd ps ih => exact ih _ (by simp [paramStep, h])
 
+theorem handleWrites_name (ops : Ops DT Val) (pd : ParamDesc DT Val) (a : Acc DT Val) :
+    (handleWrites ops pd a).inst.name = pd.name := by
+  unfold handleWrites
+  split
+  · rfl
+  · split
+    · rfl
+    · split
+      · simp only [startFromDefault]; split <;> rfl
+      · rfl
+
 theorem addParam_name (ops : Ops DT Val) (insts : List (PInst DT Val)) (pd : ParamDesc DT Val) (e : Option (Entry Val))
     (o : POut DT Val) (h : addParam ops insts pd e = .done o) : o.inst.name = pd.name := by
-  have hw : ∀ a, (handleWrites ops insts pd a).inst.name = pd.name := by
-    intro a
-    unfold handleWrites
-    split <;> try rfl
-    split <;> try rfl
-    split <;> try rfl
-    split
-    · simp only [startFromDefault]; split <;> rfl
-    · rfl
   unfold addParam at h
   split at h
-  · cases h; exact hw _
+  · cases h; exact handleWrites_name ops pd _
   · cases h
   · split at h
-    · cases h; exact hw _
+    · cases h; exact handleWrites_name ops pd _
     · cases h
 
 theorem foldl_run (ops : Ops DT Val) (cfg : Cfg Val) (ps : List (ParamDesc DT Val)) (acc : ParamsOut DT Val)
@@ -163,7 +165,7 @@ theorem run_names (ops : Ops DT Val) (cfg : Cfg Val) :
 theorem applyEntries_spec (ops : Ops DT Val) :
     ∀ (items : List (Name × Val)) (a a' : Acc DT Val) (dt : DT), a.dt = some dt →
       applyEntries ops a items = some a' →
-      hasBadProp ops dt items = false ∧ a'.dt = dtAfter ops dt items ∧
+      hasBadProp ops dt items = false ∧ (∃ dt', a'.dt = some dt' ∧ dtAfter ops dt items = some dt') ∧
       a'.value = givenFor "value" a.value items ∧ a'.default = givenFor "default" a.default items := by
   intro items
   induction items with
@@ -229,102 +231,131 @@ namespace Frappy.Lemmas.Config
 open Frappy.Config Frappy.Spec.C10
 variable {DT Val : Type}
 
-/-- what a parameter with its own datatype went through when nothing was collected for it -/
-structure ParamOk (ops : Ops DT Val) (pd : ParamDesc DT Val) (dt0 : DT) (items : List (Name × Val)) (o : POut DT Val) : Prop where
+/-- what a parameter went through when nothing was collected for it; `dt0`, `dflt`: datatype and default it
+started from (class level, or derived from the base parameter for a limit) -/
+structure ParamOk (ops : Ops DT Val) (pd : ParamDesc DT Val) (dt0 : DT) (dflt : Option Val)
+    (items : List (Name × Val)) (o : POut DT Val) : Prop where
   noBadProp : hasBadProp ops dt0 items = false
   dt : ∃ dt', dtAfter ops dt0 items = some dt' ∧ o.inst.dt = some dt' ∧
     (∀ x, givenFor "value" pd.value items = some x →
       (ops.convert dt' x).isSome ∧ o.inst.value = some (conv ops dt' x) ∧
       o.write = if pd.hasWrite then some x else none) ∧
     (givenFor "value" pd.value items = none → o.write = none ∧ pd.needscfg = false) ∧
-    (∀ d, givenFor "default" pd.default items = some d → (ops.convert dt' d).isSome)
-  own : ∀ a, applyEntries ops (classAcc pd) items = some a → o.inst.own = a.own
+    (∀ d, givenFor "default" dflt items = some d → (ops.convert dt' d).isSome)
 
-theorem handleWrites_ok (ops : Ops DT Val) (insts : List (PInst DT Val)) (pd : ParamDesc DT Val) (a : Acc DT Val)
-    (hlim : pd.limit = none) (herr : (handleWrites ops insts pd a).errs = []) :
-    ∃ dt', a.dt = some dt' ∧ (handleWrites ops insts pd a).inst.dt = some dt' ∧
-      (handleWrites ops insts pd a).inst.own = a.own ∧
+theorem handleWrites_ok (ops : Ops DT Val) (pd : ParamDesc DT Val) (a : Acc DT Val) (dt' : DT)
+    (hdt : a.dt = some dt') (herr : (handleWrites ops pd a).errs = []) :
+    (handleWrites ops pd a).inst.dt = some dt' ∧
+      (handleWrites ops pd a).inst.own = a.own ∧
       (∀ x, a.value = some x → (ops.convert dt' x).isSome ∧
-        (handleWrites ops insts pd a).inst.value = some (conv ops dt' x) ∧
-        (handleWrites ops insts pd a).write = if pd.hasWrite then some x else none) ∧
-      (a.value = none → (handleWrites ops insts pd a).write = none ∧ pd.needscfg = false) ∧
+        (handleWrites ops pd a).inst.value = some (conv ops dt' x) ∧
+        (handleWrites ops pd a).write = if pd.hasWrite then some x else none) ∧
+      (a.value = none → (handleWrites ops pd a).write = none ∧ pd.needscfg = false) ∧
       (∀ d, a.default = some d → (ops.convert dt' d).isSome) := by
-  have hder : deriveLimit ops insts pd a = .go a := by simp [deriveLimit, hlim]
   unfold handleWrites at herr ⊢
-  rw [hder] at herr ⊢
-  simp only at herr ⊢
-  cases hdt : a.dt with
-  | none => simp [hdt] at herr
-  | some dt' =>
-    simp only [hdt] at herr ⊢
-    cases hfc : finalCheck ops dt' a with
-    | some key => simp [hfc] at herr
+  simp only [hdt] at herr ⊢
+  cases hfc : finalCheck ops dt' a with
+  | some key => simp [hfc] at herr
+  | none =>
+    simp only [hfc] at herr ⊢
+    cases hv : a.value with
     | none =>
-      simp only [hfc] at herr ⊢
-      refine ⟨dt', rfl, ?_⟩
-      cases hv : a.value with
+      simp only [hv] at herr ⊢
+      have hfc' := hfc
+      simp only [finalCheck, hv] at hfc'
+      cases hd : a.default with
       | none =>
-        simp only [hv] at herr ⊢
-        have hfc' := hfc
-        simp only [finalCheck, hv] at hfc'
-        cases hd : a.default with
-        | none =>
-          simp only [startFromDefault, hd] at herr ⊢
-          have hn : pd.needscfg = false := by
-            by_cases hn : pd.needscfg = true
-            · simp [hn] at herr
-            · simpa using hn
-          simp [mkInst, hdt, hn]
-        | some d =>
-          simp only [startFromDefault, hd] at herr ⊢
-          simp only [hd] at hfc'
-          have hn : pd.needscfg = false := by
-            by_cases hn : pd.needscfg = true
-            · simp [hn] at herr
-            · simpa using hn
-          have hc : (ops.convert dt' d).isSome = true := by
-            cases hcc : ops.convert dt' d with
-            | none => simp [hcc] at hfc'
-            | some _ => rfl
-          simp [mkInst, hdt, hn, hc]
-      | some v =>
-        simp only [hv] at herr ⊢
-        have hfc' := hfc
-        simp only [finalCheck, hv] at hfc'
-        have hcv : (ops.convert dt' v).isSome = true := by
-          cases hcc : ops.convert dt' v with
-          | none => simp [hcc] at hfc'
-          | some _ => rfl
-        have hdd : ∀ d, a.default = some d → (ops.convert dt' d).isSome = true := by
-          intro d hd
-          have : (ops.convert dt' v).isNone = false := by
-            cases hcc : ops.convert dt' v <;> simp_all
-          simp only [this, Bool.false_eq_true, ↓reduceIte, hd] at hfc'
+        simp only [startFromDefault, hd] at herr ⊢
+        have hn : pd.needscfg = false := by
+          by_cases hn : pd.needscfg = true
+          · simp [hn] at herr
+          · simpa using hn
+        simp [mkInst, hdt, hn]
+      | some d =>
+        simp only [startFromDefault, hd] at herr ⊢
+        simp only [hd] at hfc'
+        have hn : pd.needscfg = false := by
+          by_cases hn : pd.needscfg = true
+          · simp [hn] at herr
+          · simpa using hn
+        have hc : (ops.convert dt' d).isSome = true := by
           cases hcc : ops.convert dt' d with
           | none => simp [hcc] at hfc'
           | some _ => rfl
-        simp [startFromValue, mkInst, hdt, hcv]
-        exact hdd
+        simp [mkInst, hdt, hn, hc]
+    | some v =>
+      simp only [hv] at herr ⊢
+      have hfc' := hfc
+      simp only [finalCheck, hv] at hfc'
+      have hcv : (ops.convert dt' v).isSome = true := by
+        cases hcc : ops.convert dt' v with
+        | none => simp [hcc] at hfc'
+        | some _ => rfl
+      have hdd : ∀ d, a.default = some d → (ops.convert dt' d).isSome = true := by
+        intro d hd
+        have : (ops.convert dt' v).isNone = false := by
+          cases hcc : ops.convert dt' v <;> simp_all
+        simp only [this, Bool.false_eq_true, ↓reduceIte, hd] at hfc'
+        cases hcc : ops.convert dt' d with
+        | none => simp [hcc] at hfc'
+        | some _ => rfl
+      simp [startFromValue, mkInst, hdt, hcv]
+      exact hdd
+
+/-- the derivation of a limit never touches value and own properties -/
+theorem deriveLimit_go (ops : Ops DT Val) (insts : List (PInst DT Val)) (pd : ParamDesc DT Val) (a a' : Acc DT Val)
+    (h : deriveLimit ops insts pd a = .go a') : a'.value = a.value ∧ a'.own = a.own := by
+  unfold deriveLimit at h
+  split at h
+  · cases h; exact ⟨rfl, rfl⟩
+  · split at h
+    · cases h
+    · split at h
+      · cases h
+      · split at h
+        · cases h; exact ⟨rfl, rfl⟩
+        · split at h
+          · cases h; exact ⟨rfl, rfl⟩
+          · cases h
+
+theorem startAcc_value (ops : Ops DT Val) (insts : List (PInst DT Val)) (pd : ParamDesc DT Val) :
+    (startAcc ops insts pd).acc.value = pd.value ∧ (startAcc ops insts pd).acc.own = pd.own := by
+  unfold startAcc
+  cases h : deriveLimit ops insts pd (classAcc pd) with
+  | go a => exact deriveLimit_go ops insts pd _ a h
+  | noBase => exact ⟨rfl, rfl⟩
+  | baseUntyped => exact ⟨rfl, rfl⟩
+  | baseBad => exact ⟨rfl, rfl⟩
+
+theorem startAcc_own (ops : Ops DT Val) (insts : List (PInst DT Val)) (pd : ParamDesc DT Val)
+    (hlim : pd.limit = none) : startAcc ops insts pd = ⟨classAcc pd, []⟩ := by
+  simp [startAcc, deriveLimit, hlim]
 
 theorem param_ok (ops : Ops DT Val) (insts : List (PInst DT Val)) (pd : ParamDesc DT Val) (dt0 : DT)
     (e : Option (Entry Val)) (items : List (Name × Val)) (o : POut DT Val)
-    (hdt : pd.dt = some dt0) (hlim : pd.limit = none)
+    (hdt : (startAcc ops insts pd).acc.dt = some dt0)
     (he : e = some (.acc items) ∨ (e = none ∧ items = []))
-    (hadd : addParam ops insts pd e = .done o) (herr : o.errs = []) : ParamOk ops pd dt0 items o := by
-  have key : ∃ a, applyEntries ops (classAcc pd) items = some a ∧ o = handleWrites ops insts pd a := by
+    (hadd : addParam ops insts pd e = .done o) (herr : o.errs = []) :
+    ParamOk ops pd dt0 (startAcc ops insts pd).acc.default items o ∧
+    (∀ a, applyEntries ops (startAcc ops insts pd).acc items = some a → o.inst.own = a.own) := by
+  have key : ∃ a, applyEntries ops (startAcc ops insts pd).acc items = some a ∧
+      o = withErrs (startAcc ops insts pd).errs (handleWrites ops pd a) := by
     rcases he with rfl | ⟨rfl, rfl⟩
     · simp only [addParam] at hadd
-      cases hap : applyEntries ops (classAcc pd) items with
+      cases hap : applyEntries ops (startAcc ops insts pd).acc items with
       | none => simp [hap] at hadd
       | some a => simp only [hap, PRes.done.injEq] at hadd; exact ⟨a, rfl, hadd.symm⟩
     · simp only [addParam, PRes.done.injEq] at hadd
-      exact ⟨classAcc pd, rfl, hadd.symm⟩
+      exact ⟨(startAcc ops insts pd).acc, rfl, hadd.symm⟩
   obtain ⟨a, hap, rfl⟩ := key
-  obtain ⟨h1, h2, h3, h4⟩ := applyEntries_spec ops items (classAcc pd) a dt0 (by simp [classAcc, hdt]) hap
-  obtain ⟨dt', hadt, hidt, hown, hval, hnov, hdef⟩ := handleWrites_ok ops insts pd a hlim herr
-  refine ⟨h1, ⟨dt', by rw [← h2, hadt], hidt, ?_, ?_, ?_⟩, ?_⟩
-  · intro x hx; exact hval x (by rw [h3]; exact hx)
-  · intro hx; exact hnov (by rw [h3]; exact hx)
+  have herr' : (handleWrites ops pd a).errs = [] := by
+    simp only [withErrs, List.append_eq_nil_iff] at herr; exact herr.2
+  obtain ⟨h1, ⟨dt', hadt, hafter⟩, h3, h4⟩ := applyEntries_spec ops items _ a dt0 hdt hap
+  obtain ⟨hidt, hown, hval, hnov, hdef⟩ := handleWrites_ok ops pd a dt' hadt herr'
+  have hv := (startAcc_value ops insts pd).1
+  refine ⟨⟨h1, ⟨dt', hafter, hidt, ?_, ?_, ?_⟩⟩, ?_⟩
+  · intro x hx; exact hval x (by rw [h3, hv]; exact hx)
+  · intro hx; exact hnov (by rw [h3, hv]; exact hx)
   · intro d hd; exact hdef d (by rw [h4]; exact hd)
   · intro a' ha'; rw [hap] at ha'; cases ha'; exact hown
 
@@ -332,22 +363,19 @@ theorem param_ok (ops : Ops DT Val) (insts : List (PInst DT Val)) (pd : ParamDes
 theorem write_some (ops : Ops DT Val) (insts : List (PInst DT Val)) (pd : ParamDesc DT Val) (e : Option (Entry Val))
     (o : POut DT Val) (v : Val) (hadd : addParam ops insts pd e = .done o) (hw : o.write = some v) :
     pd.hasWrite = true := by
-  have hh : ∀ a, (handleWrites ops insts pd a).write = some v → pd.hasWrite = true := by
+  have hh : ∀ a, (handleWrites ops pd a).write = some v → pd.hasWrite = true := by
     intro a
     unfold handleWrites
     split
     · simp
-    · simp
     · split
       · simp
       · split
-        · simp
-        · split
-          · simp only [startFromDefault]; split <;> simp
-          · simp only [startFromValue]
-            by_cases hwm : pd.hasWrite = true
-            · intro _; exact hwm
-            · simp [hwm]
+        · simp only [startFromDefault]; split <;> simp
+        · simp only [startFromValue]
+          by_cases hwm : pd.hasWrite = true
+          · intro _; exact hwm
+          · simp [hwm]
   unfold addParam at hadd
   split at hadd
   · cases hadd; exact hh _ hw
@@ -384,5 +412,341 @@ theorem writes_sublist (outs : List (POut DT Val)) :
     cases hw : o.write with
     | none => simp only [List.filterMap_cons, writeOf, hw, Option.map_none, List.map_cons]; exact ih.cons _
     | some v => simp only [List.filterMap_cons, writeOf, hw, Option.map_some, List.map_cons]; exact ih.cons_cons _
+
+end Frappy.Lemmas.Config
+
+namespace Frappy.Lemmas.Config
+open Frappy.Config Frappy.Spec.C10
+variable {DT Val : Type}
+
+/-! ## the fold over `propertyDict` -/
+
+theorem modProps_raised (cfg : Cfg Val) (ds : List (ModPropDesc Val)) (acc : ModPropsOut Val)
+    (h : acc.raised = true) : (ds.foldl (modPropStep cfg) acc).raised = true := by
+  induction ds generalizing acc with
+  | nil => exact h
+  | cons d ds ih => exact ih _ (by simp [modPropStep, h])
+
+/-- nothing collected and no exception: every module property was absent from the cfg or accepted, and no dict
+given for a property had a key besides `value` -/
+theorem modProps_ok (cfg : Cfg Val) :
+    ∀ (ds : List (ModPropDesc Val)) (acc : ModPropsOut Val), acc.raised = false →
+      (ds.foldl (modPropStep cfg) acc).raised = false → (ds.foldl (modPropStep cfg) acc).errs = [] →
+      acc.errs = [] ∧ ∀ d ∈ ds, extraKeys (lookup d.name cfg) = [] ∧
+        (applyModProp d (lookup d.name cfg) = .absent ∨ ∃ v, applyModProp d (lookup d.name cfg) = .set v) := by
+  intro ds
+  induction ds with
+  | nil => intro acc _ _ he; exact ⟨he, fun d hd => by cases hd⟩
+  | cons d ds ih =>
+    intro acc hacc hr he
+    simp only [List.foldl_cons] at hr he
+    cases hap : applyModProp d (lookup d.name cfg) with
+    | absent =>
+      have hstep : (modPropStep cfg acc d).raised = false ∧ (modPropStep cfg acc d).errs =
+          acc.errs ++ (extraKeys (lookup d.name cfg)).map (CfgErr.unknownProp d.name) := by
+        simp only [modPropStep, hacc, hap]; cases d.classValue <;> simp [hacc]
+      obtain ⟨h1, h2⟩ := ih _ hstep.1 hr he
+      rw [hstep.2] at h1
+      simp only [List.append_eq_nil_iff, List.map_eq_nil_iff] at h1
+      refine ⟨h1.1, fun d' hd' => ?_⟩
+      rcases List.mem_cons.1 hd' with rfl | hin
+      · exact ⟨h1.2, Or.inl hap⟩
+      · exact h2 d' hin
+    | set v =>
+      have hstep : (modPropStep cfg acc d).raised = false ∧ (modPropStep cfg acc d).errs =
+          acc.errs ++ (extraKeys (lookup d.name cfg)).map (CfgErr.unknownProp d.name) := by
+        simp [modPropStep, hacc, hap]
+      obtain ⟨h1, h2⟩ := ih _ hstep.1 hr he
+      rw [hstep.2] at h1
+      simp only [List.append_eq_nil_iff, List.map_eq_nil_iff] at h1
+      refine ⟨h1.1, fun d' hd' => ?_⟩
+      rcases List.mem_cons.1 hd' with rfl | hin
+      · exact ⟨h1.2, Or.inr ⟨v, hap⟩⟩
+      · exact h2 d' hin
+    | bad =>
+      have hstep : (modPropStep cfg acc d).raised = false ∧
+          (modPropStep cfg acc d).errs = acc.errs ++ (extraKeys (lookup d.name cfg)).map (CfgErr.unknownProp d.name)
+            ++ [.badModProp d.name] := by
+        simp only [modPropStep, hacc, hap]; cases d.classValue <;> simp
+      obtain ⟨h1, _⟩ := ih _ hstep.1 hr he
+      rw [hstep.2] at h1; simp at h1
+    | raised =>
+      have hstep : (modPropStep cfg acc d).raised = true := by simp [modPropStep, hacc, hap]
+      rw [modProps_raised cfg ds _ hstep] at hr; cases hr
+
+theorem lookup_append_none {α : Type} (n k : Name) (v : α) (l : List (Name × α)) :
+    lookup n (l ++ [(k, v)]) = none ↔ lookup n l = none ∧ k ≠ n := by
+  induction l with
+  | nil => simp only [List.nil_append, lookup]; split <;> simp_all
+  | cons x l ih =>
+    simp only [List.cons_append, lookup]
+    split
+    · simp
+    · exact ih
+
+/-- a property that is not in the cfg and has no class value has no value afterwards -/
+theorem modProps_no_value (cfg : Cfg Val) (n : Name) :
+    ∀ (ds : List (ModPropDesc Val)) (acc : ModPropsOut Val), lookup n acc.values = none →
+      (∀ d ∈ ds, d.name = n → applyModProp d (lookup d.name cfg) = .absent ∧ d.classValue = none) →
+      lookup n (ds.foldl (modPropStep cfg) acc).values = none := by
+  intro ds
+  induction ds with
+  | nil => intro acc h _; exact h
+  | cons d ds ih =>
+    intro acc h hall
+    simp only [List.foldl_cons]
+    apply ih
+    · unfold modPropStep
+      split
+      · exact h
+      · by_cases hn : d.name = n
+        · obtain ⟨ha, hc⟩ := hall d List.mem_cons_self hn
+          simp [ha, hc, h]
+        · split
+          · split
+            · simp only; rw [lookup_append_none]; exact ⟨h, hn⟩
+            · exact h
+          · simp only; rw [lookup_append_none]; exact ⟨h, hn⟩
+          · split
+            · simp only; rw [lookup_append_none]; exact ⟨h, hn⟩
+            · exact h
+          · exact h
+    · intro d' hd' hn'; exact hall d' (List.mem_cons_of_mem _ hd') hn'
+
+/-- in a list with distinct names, a name determines the element -/
+theorem name_determines {α : Type} (f : α → Name) :
+    ∀ (l : List α), (l.map f).Nodup → ∀ a ∈ l, ∀ b ∈ l, f a = f b → a = b := by
+  intro l
+  induction l with
+  | nil => intro _ a ha; cases ha
+  | cons x l ih =>
+    intro hnd a ha b hb hab
+    simp only [List.map_cons, List.nodup_cons] at hnd
+    rcases List.mem_cons.1 ha with rfl | ha' <;> rcases List.mem_cons.1 hb with rfl | hb'
+    · rfl
+    · exact absurd (by rw [hab]; exact List.mem_map_of_mem hb') hnd.1
+    · exact absurd (by rw [← hab]; exact List.mem_map_of_mem ha') hnd.1
+    · exact ih hnd.2 a ha' b hb' hab
+
+end Frappy.Lemmas.Config
+
+namespace Frappy.Lemmas.Config
+open Frappy.Config Frappy.Spec.C10
+variable {DT Val : Type}
+
+/-! ## limits: the base parameter is already on the instance -/
+
+theorem findInst_mem (n : Name) : ∀ (l : List (PInst DT Val)) (b : PInst DT Val),
+    findInst n l = some b → b ∈ l ∧ b.name = n := by
+  intro l
+  induction l with
+  | nil => intro b h; cases h
+  | cons x l ih =>
+    intro b h
+    simp only [findInst] at h
+    split at h
+    · cases h; exact ⟨List.mem_cons_self, by assumption⟩
+    · obtain ⟨h1, h2⟩ := ih b h; exact ⟨List.mem_cons_of_mem _ h1, h2⟩
+
+/-- like `run_mem`, remembering that the instances a parameter sees are outputs of earlier parameters -/
+theorem run_prefix (ops : Ops DT Val) (cfg : Cfg Val) :
+    ∀ (ps : List (ParamDesc DT Val)) (insts : List (PInst DT Val)) (outs : List (POut DT Val)),
+      runParams ops cfg insts ps = some outs →
+      ∀ pd ∈ ps, ∃ insts' o, addParam ops insts' pd (lookup pd.name cfg) = .done o ∧ o ∈ outs ∧
+        ∀ b ∈ insts', b ∈ insts ∨ ∃ o' ∈ outs, o'.inst = b := by
+  intro ps
+  induction ps with
+  | nil => intro _ _ _ pd hpd; cases hpd
+  | cons p ps ih =>
+    intro insts outs h pd hpd
+    simp only [runParams] at h
+    cases hadd : addParam ops insts p (lookup p.name cfg) with
+    | raised => simp [hadd] at h
+    | done o =>
+      simp only [hadd, Option.map_eq_some_iff] at h
+      obtain ⟨outs', hrun, rfl⟩ := h
+      rcases List.mem_cons.1 hpd with rfl | hin
+      · exact ⟨insts, o, hadd, List.mem_cons_self, fun b hb => Or.inl hb⟩
+      · obtain ⟨i', o', h1, h2, h3⟩ := ih _ _ hrun pd hin
+        refine ⟨i', o', h1, List.mem_cons_of_mem _ h2, fun b hb => ?_⟩
+        rcases h3 b hb with hb' | ⟨o'', ho'', rfl⟩
+        · rcases List.mem_append.1 hb' with hb'' | hb''
+          · exact Or.inl hb''
+          · simp only [List.mem_singleton] at hb''
+            exact Or.inr ⟨o, List.mem_cons_self, hb''.symm⟩
+        · exact Or.inr ⟨o'', List.mem_cons_of_mem _ ho'', rfl⟩
+
+end Frappy.Lemmas.Config
+
+namespace Frappy.Lemmas.Config
+open Frappy.Config Frappy.Spec.C10
+variable {DT Val : Type}
+
+/-- well-formedness of a class description: distinct names; the base of a limit parameter is not itself a limit -/
+structure WellFormed (c : ClassDesc DT Val) : Prop where
+  propNames : (c.modProps.map (·.name)).Nodup
+  paramNames : (c.params.map (·.name)).Nodup
+  bases : ∀ pd ∈ c.params, pd.limit.isSome = true → ∀ b ∈ c.params, b.name = pd.base → b.limit = none
+
+theorem deriveLimit_typed (ops : Ops DT Val) (insts : List (PInst DT Val)) (pd : ParamDesc DT Val) (a a' : Acc DT Val)
+    (dt : DT) (hdt : a.dt = some dt) (h : deriveLimit ops insts pd a = .go a') : a' = a := by
+  unfold deriveLimit at h
+  split at h
+  · cases h; rfl
+  · split at h
+    · cases h
+    · split at h
+      · cases h
+      · simp only [hdt] at h; cases h; rfl
+
+theorem addParam_start_errs (ops : Ops DT Val) (insts : List (PInst DT Val)) (pd : ParamDesc DT Val)
+    (e : Option (Entry Val)) (o : POut DT Val) (hadd : addParam ops insts pd e = .done o) (herr : o.errs = []) :
+    (startAcc ops insts pd).errs = [] := by
+  unfold addParam at hadd
+  split at hadd
+  · cases hadd; simp only [withErrs, List.append_eq_nil_iff] at herr; exact herr.1
+  · cases hadd
+  · split at hadd
+    · cases hadd; simp only [withErrs, List.append_eq_nil_iff] at herr; exact herr.1
+    · cases hadd
+
+/-- the entry of a parameter which went through `addParam` is a dict or absent -/
+theorem addParam_items (ops : Ops DT Val) (insts : List (PInst DT Val)) (pd : ParamDesc DT Val) (cfg : Cfg Val)
+    (o : POut DT Val) (hadd : addParam ops insts pd (lookup pd.name cfg) = .done o) :
+    lookup pd.name cfg = some (.acc ((cfgOf pd.name cfg).getD [])) ∨
+      (lookup pd.name cfg = none ∧ (cfgOf pd.name cfg).getD [] = []) := by
+  unfold cfgOf
+  cases hl : lookup pd.name cfg with
+  | none => right; simp
+  | some e =>
+    cases e with
+    | prop c => rw [hl] at hadd; simp [addParam] at hadd
+    | acc items => left; simp
+
+/-- in an accepted run, what a parameter starts from is what the specification says (`startOf`) -/
+theorem start_matches (ops : Ops DT Val) (c : ClassDesc DT Val) (cfg : Cfg Val) (wf : WellFormed c)
+    (outs : List (POut DT Val)) (hrun : runParams ops cfg [] c.params = some outs)
+    (herrs : ∀ o ∈ outs, o.errs = [])
+    (hchk : ∀ o ∈ outs, ∀ dt, o.inst.dt = some dt → ops.checkDT dt = true)
+    (pd : ParamDesc DT Val) (hpd : pd ∈ c.params) (dt0 : DT) (dflt : Option Val)
+    (hs : startOf ops c cfg pd = some (dt0, dflt))
+    (insts' : List (PInst DT Val)) (o : POut DT Val)
+    (hadd : addParam ops insts' pd (lookup pd.name cfg) = .done o) (ho : o ∈ outs)
+    (hpre : ∀ b ∈ insts', ∃ o' ∈ outs, o'.inst = b) :
+    (startAcc ops insts' pd).acc.dt = some dt0 ∧ (startAcc ops insts' pd).acc.default = dflt := by
+  have hse := addParam_start_errs ops insts' pd _ o hadd (herrs o ho)
+  unfold startOf at hs
+  cases hpdt : pd.dt with
+  | some dt =>
+    simp only [hpdt, Option.some.injEq, Prod.mk.injEq] at hs
+    obtain ⟨rfl, rfl⟩ := hs
+    unfold startAcc
+    cases hd : deriveLimit ops insts' pd (classAcc pd) with
+    | go a =>
+      have := deriveLimit_typed ops insts' pd (classAcc pd) a dt (by simp [classAcc, hpdt]) hd
+      subst this; simp [classAcc, hpdt]
+    | noBase => simp [classAcc, hpdt]
+    | baseUntyped => simp [classAcc, hpdt]
+    | baseBad => simp [classAcc, hpdt]
+  | none =>
+    simp only [hpdt] at hs
+    cases hlim : pd.limit with
+    | none => simp [hlim] at hs
+    | some k =>
+      simp only [hlim] at hs
+      cases hfind : c.params.find? (fun b => b.name == pd.base) with
+      | none => simp [hfind] at hs
+      | some bd =>
+        simp only [hfind] at hs
+        cases hbdt : bd.dt with
+        | none => simp [hbdt] at hs
+        | some bdt0 =>
+          simp only [hbdt] at hs
+          cases hafter : dtAfter ops bdt0 ((cfgOf bd.name cfg).getD []) with
+          | none => simp [hafter] at hs
+          | some bdt' =>
+            simp only [hafter, Option.some.injEq, Prod.mk.injEq] at hs
+            obtain ⟨rfl, rfl⟩ := hs
+            have hbd_mem : bd ∈ c.params := List.mem_of_find?_eq_some hfind
+            have hbd_name : bd.name = pd.base := by
+              have := List.find?_some hfind; simpa using this
+            cases hfi : findInst pd.base insts' with
+            | none =>
+              have : (startAcc ops insts' pd).errs = [.limitNoBase pd.name] := by
+                simp [startAcc, deriveLimit, hlim, hfi]
+              rw [this] at hse; cases hse
+            | some b =>
+              obtain ⟨hb_mem, hb_name⟩ := findInst_mem pd.base insts' b hfi
+              obtain ⟨ob, hob, rfl⟩ := hpre b hb_mem
+              obtain ⟨insts'', pdb, hpdb, haddb⟩ := run_mem' ops cfg c.params [] outs hrun ob hob
+              have hnameb := addParam_name ops _ _ _ _ haddb
+              have hpdb_eq : pdb = bd :=
+                name_determines (fun p : ParamDesc DT Val => p.name) c.params wf.paramNames pdb hpdb bd hbd_mem
+                  (by rw [← hnameb, hb_name, hbd_name])
+              subst hpdb_eq
+              have hblim : pdb.limit = none := wf.bases pd hpd (by simp [hlim]) pdb hpdb hbd_name
+              have hstartb : (startAcc ops insts'' pdb).acc.dt = some bdt0 := by
+                rw [startAcc_own ops insts'' pdb hblim]; simp [classAcc, hbdt]
+              have hpk := (param_ok ops insts'' pdb bdt0 _ _ ob hstartb
+                (addParam_items ops insts'' pdb cfg ob haddb) haddb (herrs ob hob)).1
+              obtain ⟨dt'', hd1, hd2, _⟩ := hpk.dt
+              rw [hafter] at hd1; cases hd1
+              have hck := hchk ob hob bdt' hd2
+              simp [startAcc, deriveLimit, hlim, hfi, hd2, classAcc, hpdt, hck]
+
+end Frappy.Lemmas.Config
+
+namespace Frappy.Lemmas.Config
+open Frappy.Config Frappy.Spec.C10
+variable {DT Val : Type}
+
+/-- the run behind an accepted configuration -/
+theorem accepted_run (ops : Ops DT Val) (c : ClassDesc DT Val) (cfg : Cfg Val) (i : Instance DT Val)
+    (acc : Accepted ops c cfg i) :
+    ∃ outs, runParams ops cfg [] c.params = some outs ∧ i.params = outs.map (·.inst) ∧
+      i.writeDict = outs.filterMap writeOf ∧ (∀ o ∈ outs, o.errs = []) ∧
+      (∀ o ∈ outs, ∀ dt, o.inst.dt = some dt → ops.checkDT dt = true) := by
+  obtain ⟨outs, hrun, hinsts, herrs, hwrites⟩ := foldl_run ops cfg c.params ⟨[], [], [], false⟩ rfl acc.poRaised
+  have hi : (applyParams ops c.params cfg).insts = outs.map (·.inst) := by
+    unfold applyParams; rw [hinsts]; simp
+  refine ⟨outs, hrun, by rw [acc.inst]; exact hi, ?_, ?_, ?_⟩
+  · rw [acc.inst]; show (applyParams ops c.params cfg).writes = _
+    unfold applyParams; rw [hwrites]; simp
+  · have h0 : outs.flatMap (·.errs) = [] := by
+      have := acc.poErrs; unfold applyParams at this; rw [herrs] at this; simpa using this
+    rw [List.flatMap_eq_nil_iff] at h0
+    exact h0
+  · intro o ho dt hdt
+    have hd := acc.datatypes
+    rw [hi] at hd
+    unfold checkDatatypes at hd
+    rw [List.filterMap_eq_nil_iff] at hd
+    have := hd o.inst (List.mem_map_of_mem ho)
+    simpa [hdt] using this
+
+theorem items_eq (pd : ParamDesc DT Val) (cfg : Cfg Val) (items : List (Name × Val))
+    (h : lookup pd.name cfg = some (.acc items) ∨ (lookup pd.name cfg = none ∧ items = [])) :
+    items = (cfgOf pd.name cfg).getD [] := by
+  unfold cfgOf
+  rcases h with h | ⟨h, rfl⟩ <;> simp [h]
+
+/-- every parameter of an accepted, well-formed class which the specification gives a start (`startOf`) went
+through the cfg loop and `_handle_writes` without anything being collected -/
+theorem accepted_param (ops : Ops DT Val) (c : ClassDesc DT Val) (cfg : Cfg Val) (i : Instance DT Val)
+    (acc : Accepted ops c cfg i) (wf : WellFormed c) (pd : ParamDesc DT Val) (hpd : pd ∈ c.params)
+    (dt0 : DT) (dflt : Option Val) (hs : startOf ops c cfg pd = some (dt0, dflt)) :
+    ∃ (outs : List (POut DT Val)) (o : POut DT Val), i.params = outs.map (·.inst) ∧ i.writeDict = outs.filterMap writeOf ∧ o ∈ outs ∧
+      o.inst.name = pd.name ∧ ParamOk ops pd dt0 dflt ((cfgOf pd.name cfg).getD []) o ∧
+      (∀ dt, o.inst.dt = some dt → ops.checkDT dt = true) := by
+  obtain ⟨outs, hrun, hi, hw, herrs, hchk⟩ := accepted_run ops c cfg i acc
+  obtain ⟨insts', o, hadd, ho, hpre⟩ := run_prefix ops cfg c.params [] outs hrun pd hpd
+  have hpre' : ∀ b ∈ insts', ∃ o' ∈ outs, o'.inst = b := by
+    intro b hb; rcases hpre b hb with h | h
+    · cases h
+    · exact h
+  obtain ⟨hsdt, hsdef⟩ := start_matches ops c cfg wf outs hrun herrs hchk pd hpd dt0 dflt hs insts' o hadd ho hpre'
+  have pk := (param_ok ops insts' pd dt0 _ _ o hsdt (addParam_items ops insts' pd cfg o hadd) hadd (herrs o ho)).1
+  rw [hsdef] at pk
+  exact ⟨outs, o, hi, hw, ho, addParam_name ops _ _ _ _ hadd, pk, hchk o ho⟩
 
 end Frappy.Lemmas.Config
